@@ -31,6 +31,13 @@ def _bytes(t):
     return core.tbytes(t)
 
 
+def _ver(t):
+    try:
+        return t._version
+    except RuntimeError:      # inference tensors do not track a version counter
+        return None
+
+
 def _sd(module):
     return {k: _bytes(v) for k, v in module.state_dict().items()}
 
@@ -274,9 +281,9 @@ class C13World(World):
             t = val.clone()
         s = Slot()
         s.tensor, s.base, s.store = t, base, store
-        s.bytes, s.version = _bytes(t), t._version
+        s.bytes, s.version = _bytes(t), _ver(t)
         s.base_bytes = _bytes(base) if base is not None else None
-        s.base_version = base._version if base is not None else None
+        s.base_version = _ver(base) if base is not None else None
         s.clients = {client}
         s.passed = False
         self.pool[key] = s
@@ -285,19 +292,19 @@ class C13World(World):
 
     def _check_returned(self, when):
         for fn, t, b, v in self.returned:
-            if t._version != v or _bytes(t) != b:
+            if _ver(t) != v or _bytes(t) != b:
                 raise Violation("previously_returned_tensor_modified", "%s: a tensor returned earlier by %s was changed "
-                                "(version %d -> %d)" % (when, fn, v, t._version))
+                                "(version %s -> %s)" % (when, fn, v, _ver(t)))
 
     def _check_pool(self, when):
         self._check_returned(when)
         for key, s in self.pool.items():
-            if s.tensor._version != s.version or _bytes(s.tensor) != s.bytes:
+            if _ver(s.tensor) != s.version or _bytes(s.tensor) != s.bytes:
                 raise Violation("caller_tensor_modified", "%s: argument %s (version %d -> %d, bytes %s)" % (
-                    when, key, s.version, s.tensor._version, "changed" if _bytes(s.tensor) != s.bytes else "same"))
-            if s.base is not None and (s.base._version != s.base_version or _bytes(s.base) != s.base_bytes):
+                    when, key, s.version or -1, _ver(s.tensor) or -1, "changed" if _bytes(s.tensor) != s.bytes else "same"))
+            if s.base is not None and (_ver(s.base) != s.base_version or _bytes(s.base) != s.base_bytes):
                 raise Violation("caller_tensor_modified", "%s: base storage behind %s (version %d -> %d)" % (
-                    when, key, s.base_version, s.base._version))
+                    when, key, s.base_version or -1, _ver(s.base) or -1))
 
     # ------------------------------------------------------------ step
     def step(self, op, log):
@@ -371,7 +378,7 @@ class C13World(World):
             return self.pool[key].tensor
         s = Slot()
         s.tensor, s.base, s.store = t, None, "plain"
-        s.bytes, s.version, s.base_bytes, s.base_version = _bytes(t), t._version, None, None
+        s.bytes, s.version, s.base_bytes, s.base_version = _bytes(t), _ver(t), None, None
         s.clients, s.passed = {client}, True
         self.pool[key] = s
         return t
@@ -461,15 +468,19 @@ class C13World(World):
         stores = [op[a]["store"] for a in ("x", "ctx") if isinstance(op.get(a), dict)]
         if any(s != "plain" for s in stores):
             self.nonplain_ok += 1
-        if outs and isinstance(outs[0], torch.Tensor):
+        sampling = fn in ("sample", "sample_and_log_prob")
+        if outs and isinstance(outs[0], torch.Tensor) and not sampling:
             self.last_out[op.get("client", 0)] = outs[0].detach()
         # results handed to a caller are the caller's tensors from then on: watch the last few of them
         for o in outs:
             if isinstance(o, torch.Tensor):
-                self.returned.append((fn, o.detach(), _bytes(o), o._version))
+                t = o.detach()
+                self.returned.append((fn, t, _bytes(t), _ver(t)))
         del self.returned[:-6]
         rb = b"".join(_bytes(o) for o in outs)
-        log.add("ok", rb)
+        # sampled values stay out of the event log and out of the feedback store: a library may draw from a generator
+        # of its own, and the property says "up to sampling randomness"
+        log.add("ok", "sampled" if sampling else rb)
         if op.get("reject"):
             return
         # ---- invariant 5: order independence in evaluation mode (bitwise)
